@@ -8,6 +8,7 @@ mod seq_sender;
 mod seq_mempool;
 mod seq_full;
 mod hostile;
+mod c04;
 mod util;
 mod world;
 #[path = "/repo/node/src/config.rs"]
@@ -43,7 +44,7 @@ fn main() {
     if args.get(2).map(|s| s.as_str()) == Some("--replay") {
         let path = args.get(3).cloned().unwrap_or_default();
         let code = match prop {
-            "C01" | "C02" | "C03" | "C05" | "C09" | "C10" | "C19" => protochecks::replay(prop, &path),
+            "C01" | "C02" | "C03" | "C04" | "C05" | "C09" | "C10" | "C19" => protochecks::replay(prop, &path),
             _ => {
                 eprintln!("no replay support for {}", prop);
                 2
@@ -55,6 +56,7 @@ fn main() {
         "C01" => protochecks::c01(tier),
         "C02" => protochecks::c02(tier),
         "C03" => protochecks::c03(tier),
+        "C04" => c04::c04(tier),
         "C05" => protochecks::c05(tier),
         "C09" => protochecks::c09(tier),
         "C10" => protochecks::c10(tier),
